@@ -69,6 +69,7 @@ def run(ck, m):
     snapshot_names_precedence(ck, m)
     database_created_once(ck, m)
     same_derivation_rule(ck, m)
+    forwarded_messages_agree_with_the_table(ck, m)
     # every secondary is sent every message: the fan-out registers the expected acknowledgement and then sends, per member, with no
     # other condition (C14.d, repeated: a member skipped because "it still owes an ack for the same text" misses an operation for good)
     from nl import alias as _alias4
@@ -813,3 +814,44 @@ def same_derivation_rule(ck, m, rule='C04.o'):
                   'the handler applies %s to %s.%s, the replication table %s: the message the other nodes receive is built from a different '
                   'string than the one stored here' % (sorted(a) or 'nothing', v, fld, sorted(b_) or 'nothing'), d.loc(sw[1][v]))
     ck.floor(rule, n, 4, 'request fields used by both a handler arm and its replication arm')
+
+
+def forwarded_messages_agree_with_the_table(ck, m, rule='C04.p'):
+    """C04.p — see RULES"""
+    P = m.prog
+    ck.rule(rule, 'a command that a non-primary node forwards to the primary is the command the replication table would emit for it: every message '
+                  'handed to the forwarder has, for its command word, as many fields as the message the table (or the full form of the parser) emits for '
+                  'that word — a forward built with a shorter helper (create-db without the conflict strategy) makes the primary and, through it, '
+                  'the other nodes create something else than the node the client talked to')
+    fw = repl.forwarder(m)
+    em = repl.table_emissions(m)
+    by_word = {}
+    for v, fs in em.items():
+        for f in fs:
+            w = wire.first_word(f)
+            if w:
+                by_word.setdefault(w, set()).add(len(f.text().strip().split(' ')))
+    n, bad = 0, []
+    d, sw = m.dispatcher()
+    fam = [d] + [P.bodies[k] for k in P.bodies if k.startswith(d.id + '::{closure')]
+    for b in fam:
+        for bi, t in b.calls():
+            if callee(t) != fw.id:
+                continue
+            for a in t['args']:
+                p_ = a.get('m') or a.get('c')
+                if p_ is None or not core.is_str_ty(b.locals[p_['l']]):
+                    continue
+                fs, _o = wire.message_templates(P, b, a)
+                for f in fs:
+                    w = wire.first_word(f)
+                    if not w or w not in by_word:
+                        continue
+                    n += 1
+                    k = len(f.text().strip().split(' '))
+                    if k not in by_word[w]:
+                        bad.append('`%s` forwarded with %d fields at %s, the replication table emits it with %s' % (w, k, b.loc(bi), sorted(by_word[w])))
+    ck.ob(rule, short(fw.id), 'forwarded-messages-agree-with-the-table', not bad,
+          'the %d forwarded messages have the shape the replication table emits for their command word' % n if not bad else
+          '; '.join(sorted(set(bad))[:3]), '%s:%s' % (fw.file, fw.line))
+    ck.floor(rule, n, 3, 'forwarded messages whose command word the replication table emits too')
